@@ -261,7 +261,11 @@ func r132Kinds(c *an.Ctx) {
 		c.Add(an.Obligation{Rule: rule, Construct: "expr.DataType", Status: an.LOST, Detail: "interface not found"})
 		return
 	}
-	iface := dt.Underlying().(*types.Interface)
+	iface, isIface := dt.Underlying().(*types.Interface)
+	if !isIface {
+		c.Add(an.Obligation{Rule: rule, Construct: "expr.DataType", Status: an.LOST, Detail: "DataType is not an interface any more"})
+		return
+	}
 	var impls []string
 	for _, name := range p.Types.Scope().Names() {
 		tn, ok := p.Types.Scope().Lookup(name).(*types.TypeName)
